@@ -126,11 +126,10 @@ void iv_event_unregister(struct iv_event *this)
 {
 	struct iv_state *st = this->owner;
 
-	if (!iv_list_empty(&this->list)) {
-		___mutex_lock(&st->event_list_mutex);
+	___mutex_lock(&st->event_list_mutex);
+	if (!iv_list_empty(&this->list))
 		iv_list_del(&this->list);
-		___mutex_unlock(&st->event_list_mutex);
-	}
+	___mutex_unlock(&st->event_list_mutex);
 
 	if (!--st->event_count && is_mt_app()) {
 		if (iv_event_use_event_raw) {
